@@ -482,7 +482,8 @@ def dim_limits(ctx, f):
             seen.append((n[2], T.node(n[3])[1] - (1 if n[1] == '<' else 0)))
     # order by first evaluation of the strtoul term
     order = {}
-    for nid, ev in sorted(a.all_events('call'), key=lambda x: (x[1][3], x[0])):
+    pos = {n_.id: i for i, n_ in enumerate(a.cfg.rpo)}      # program order (helpers are expanded in place)
+    for nid, ev in sorted(a.all_events('call'), key=lambda x: (pos.get(x[0], 1 << 30), x[0])):
         if ev[1].split('::')[-1] == 'strtoul':
             t = T.mk('callr', ev[1], *ev[2])
             order.setdefault(t, len(order))
